@@ -77,8 +77,7 @@ func addC18Conc(t *testing.T, e *Env, cf *CaseFile) {
 			explained := true
 
 			for _, h := range run.slotHistories() {
-				// (known finding K1 of C08 concerns the janitor, not Delete: it does not count here)
-				if _, verdict := linearize(h); verdict == "illegal" && !knownK1(fl, h) {
+				if _, verdict := linearize(h); verdict == "illegal" {
 					explained = false
 				}
 			}
